@@ -3,8 +3,17 @@
 independent sub-agents; each passes the 164 tests).  No check may report a VIOLATION on any of them."""
 import glob, json, subprocess, sys
 bad = 0
-for d in sorted(glob.glob('/verif/benign/*/')):
-    ev = subprocess.run(['/venv/bin/python', '/verif/tools/try_seed.py', d + 'patch.diff'], capture_output=True, text=True)
+from concurrent.futures import ThreadPoolExecutor
+dirs = sorted(glob.glob('/verif/benign/*/'))
+
+
+def _run(d):
+    return subprocess.run(['/venv/bin/python', '/verif/tools/try_seed.py', d + 'patch.diff'], capture_output=True, text=True)
+
+
+with ThreadPoolExecutor(3) as ex:
+    evs = list(ex.map(_run, dirs))
+for d, ev in zip(dirs, evs):
     summ = [l for l in ev.stdout.split('\n') if l.startswith('SUMMARY')]
     if not summ:
         print(d, 'NO SUMMARY', ev.stdout[-300:]); bad += 1; continue
